@@ -13,3 +13,4 @@ import WowVerif.Props.C03
 #print axioms Wv.C03.sparse_roundtrip
 #print axioms Wv.C03.sparse_empty_bare
 #print axioms Wv.C03.sparse_stored_roundtrip
+#print axioms Wv.C03.sparse_output_bounded
